@@ -93,6 +93,24 @@ class Report:
     def error(self, msg: str):
         self.errors.append(msg)
 
+    def attempt(self, thunk):
+        """run one rule group; an analysis error in it (a lost anchor) is recorded and the other groups still run, so that a
+        positively recognised violation elsewhere is not masked by the lost anchor"""
+        from .model import AnalysisError
+        try:
+            return thunk()
+        except AnalysisError as e:
+            if str(e) not in self.errors:
+                self.error(str(e))
+            return None
+        except Exception as e:  # a traceback must never look like a violation, nor hide one found by another rule group
+            import os, traceback
+            tb = traceback.format_exc().strip().splitlines()
+            self.error(f"internal error: {type(e).__name__}: {e} @ {tb[-3].strip() if len(tb) >= 3 else ''}")
+            if os.environ.get("VERIF_DEBUG"):
+                traceback.print_exc()
+            return None
+
 
 def load_known() -> Dict[str, Dict[str, str]]:
     """property -> {instance key -> what fails}; only ``known:`` lines suppress"""
